@@ -498,6 +498,7 @@ func (*Fsrv) Clunk(req *SrvReq) {
 		err := op.Clunk(fid)
 		if err != nil {
 			req.RespondError(err)
+			return
 		}
 	}
 	req.RespondRclunk()
